@@ -94,6 +94,21 @@ def meta_errs(name, doc, strict):
     return [[e.code, e.field_path] for e in v.errors]
 
 
+def zone_in_meta(doc) -> bool:
+    """class of F42: the META block of the parsed document holds a literal zone (at any depth)."""
+    from octave_mcp.core.ast_nodes import InlineMap, ListValue, LiteralZoneValue
+
+    def has(v):
+        if isinstance(v, LiteralZoneValue):
+            return True
+        if isinstance(v, ListValue):
+            return any(has(x) for x in v.items)
+        if isinstance(v, InlineMap):
+            return any(has(x) for x in v.pairs.values())
+        return False
+    return any(has(v) for v in (doc.meta or {}).values())
+
+
 def c09_case(args):
     """one (schema, instance) pair: all texts x all observers.  Returns anomalies + the correspondence request."""
     name, schema_text, tree, meta, respell_ids, with_cli, idx = args
@@ -114,6 +129,7 @@ def c09_case(args):
         an.append(("canonical", f"canonical text of the instance cannot be produced/re-read: {type(e).__name__}: {e}"))
     base = {}
     req = None
+    zone_meta = zone_in_meta(d0)
     for (tag, text) in texts:
         views = {}
         try:
@@ -162,7 +178,9 @@ def c09_case(args):
             open(f, "w", encoding="utf-8").write(text)
             rc, o, e = H.run_cli(["validate", "--schema", name, f], os.getcwd())
             _c, st = H.cli_split(o)
-            views["cli"] = [rc, st, sorted(set(l.strip() for l in e.splitlines() if l.strip()))]
+            # view = exit code, status, error *codes* (the message text is not part of the property; for list
+            # values it contains the dataclass repr with token positions)
+            views["cli"] = [rc, st, sorted(set(l.strip().split(":")[0] for l in e.splitlines() if l.strip()))]
         if tag == "T0":
             base = views
             for code, _f in views.get("api:strict=False", []):
@@ -182,7 +200,7 @@ def c09_case(args):
             for k, v in views.items():
                 if k in base and base[k] != v:
                     an.append(("respell", f"{tag} vs T0 through {k}: {v} != {base[k]}"))
-    return {"idx": idx, "an": an, "dist": dist, "req": req, "ntexts": len(texts)}
+    return {"idx": idx, "an": an, "dist": dist, "req": req, "ntexts": len(texts), "zone_meta": zone_meta}
 
 
 def run(ctx: vlib.Ctx):
@@ -208,6 +226,12 @@ def run(ctx: vlib.Ctx):
         wd.enter()
         sds = {n: get_sd(n, t) for n, t in texts.items()}
         hand_names = [h["name"] for h in H.HAND_SCHEMAS]
+        for fid, f in findings.items():
+            if f["cls"] == "zone_in_meta":
+                try:
+                    H.parse_text(H.emit_doc(H.parse_text(f["witness"]["text"])))
+                except Exception as e:
+                    ctx.known_reproduced.append((f, f"canonical text rejected: {type(e).__name__}"))
         cases = []
         for name in [s["name"] for s in specs]:
             sd = sds[name]
@@ -245,6 +269,9 @@ def run(ctx: vlib.Ctx):
             for k, n in r["dist"].items():
                 ctx.count(k, n)
             for kind, why in r["an"]:
+                if r.get("zone_meta") and "F42" in findings and (kind == "canonical" or (kind == "respell-parse" and why.startswith("canonical"))):
+                    ctx.known_hits["F42"] = ctx.known_hits.get("F42", 0) + 1
+                    continue
                 ctx.failures.append({"case": case, "why": why, "why_class": kind})
             for (rq, impl) in (r.get("req") or []):
                 reqs.append(rq)
